@@ -53,6 +53,7 @@ type Contract struct {
 	Requires   []*Expr
 	Ensures    []*Expr
 	Modifies   []*Expr
+	ModHeaps   []string // whole component heaps (weak frame, used for assembly routines)
 	ModAll     bool
 	PanicsIff  *Expr
 	Decreases  *Expr
@@ -264,6 +265,10 @@ func (db *ContractDB) LoadContractFile(path, pkgPath string) error {
 				continue
 			}
 			for _, part := range splitTop(rest, ',') {
+				if strings.HasPrefix(part, "heap ") {
+					cur.ModHeaps = append(cur.ModHeaps, strings.TrimSpace(strings.TrimPrefix(part, "heap ")))
+					continue
+				}
 				e, err := pe(part)
 				if err != nil {
 					return err
